@@ -22,7 +22,8 @@ def run(ctx: Context, rep) -> None:
         "selection returns the right examples at run time (C12 decides the "
         "selection routine's shape)")
     rep.assumptions += [
-        "copy.deepcopy / a JSON round trip produce an independent object",
+        "copy.deepcopy produces an independent object that compares equal "
+        "to the original",
         "dict(x), x.copy(), {**x}, copy.copy(x) are shallow (nested values "
         "stay shared) and are reported as such",
     ]
@@ -218,7 +219,11 @@ SELFTESTS = [
     dict(rule="C11.escape", name="shallow-dict", expect="fire", path=_P,
          old=_ATTACH,
          new="            current_progress.shard.shard_info.custom_metadata = dict(custom_metadata)\n"),
-    dict(rule="C11.escape", name="json-roundtrip-twin", expect="silent", path=_P,
+    # (first thought to be a harmless twin; the fourth seeded round showed that a
+    # JSON round trip is not equality preserving - tuples come back as lists -
+    # so an unchanged label looks changed at the next write: C10-m7)
+    dict(rule="C11.label-copy", name="json-roundtrip-not-equality-preserving",
+         expect="fire", path=_P,
          old=_ATTACH,
          new="            import json\n            current_progress.shard.shard_info.custom_metadata = json.loads(json.dumps(custom_metadata))\n"),
     dict(rule="C11.escape", name="rebind-to-copy-twin", expect="silent", path=_P,
